@@ -20,7 +20,7 @@ LEVEL = "fault_enumeration"
 RULE = (
     "Fault scripts are sequences over the alphabet {healthy keep-alive, healthy then close, refuse (listener closed for that call), close before "
     "reply, reset (SO_LINGER 0), 503 with Content-Length and body, 500 without length then close, bodiless 502 then close, truncated body, empty "
-    "200, non-JSON 200, 202 with a valid JSON-RPC body, bodiless 204 and 304 on a kept-alive connection, 503 with a chunked body} followed by three healthy actions; all scripts of length <= 2 (quick) / <= 3 (thorough) are enumerated on TCP and on a Unix socket, longer "
+    "200, non-JSON 200, 202 with a valid JSON-RPC body, bodiless 204 and 304 on a kept-alive connection, 503 with a chunked body, interim 103 followed by the real 200, 520 without reason phrase} followed by three healthy actions; all scripts of length <= 2 (quick) / <= 3 (thorough) are enumerated on TCP and on a Unix socket, longer "
     "ones (<= 6 quick, <= 9 thorough) are drawn by Hypothesis. A scripted peer consumes one action per received request (per call for 'refuse'), so "
     "the transparent retry of xmlrpc.client.Transport.request is accounted for; every call of one ServerProxy sends a unique token and healthy "
     "replies echo the token of the request they answer. Oracle: each call returns exactly its own token or raises; when the last action a call "
@@ -34,13 +34,14 @@ ASSUMPTIONS = [
     "the call that follows an undrained non-200 reply on a kept-alive connection (204, 304, chunked body) may fail whatever the peer answers: it is the 'one further call' the statement allows",
     "R11: a call that does not return within 30 s makes the case inconclusive (skipped and counted), not a violation",
 ]
-EXHAUSTIVE = ["all fault scripts of length <= 2 (quick) / <= 3 (thorough) over the 15-action alphabet, on TCP and Unix sockets"]
+EXHAUSTIVE = ["all fault scripts of length <= 2 (quick) / <= 3 (thorough) over the 17-action alphabet, on TCP and Unix sockets"]
 
 ALPHA = ["ok_ka", "ok_close", "refuse", "close_noreply", "reset", "st_cl", "st_nolen_close", "st_bodiless", "trunc", "empty200", "nonjson",
-         "st_202_body", "st_204_ka", "st_304_ka", "st_chunked"]
-STATUS = {"st_cl": 503, "st_nolen_close": 500, "st_bodiless": 502, "st_202_body": 202, "st_204_ka": 204, "st_304_ka": 304, "st_chunked": 503}
+         "st_202_body", "st_204_ka", "st_304_ka", "st_chunked", "st_103_then_200", "st_520_noreason"]
+STATUS = {"st_cl": 503, "st_nolen_close": 500, "st_bodiless": 502, "st_202_body": 202, "st_204_ka": 204, "st_304_ka": 304, "st_chunked": 503,
+          "st_103_then_200": 103, "st_520_noreason": 520}
 HEALTHY = ("ok_ka", "ok_close")
-UNDRAINED = ("st_204_ka", "st_304_ka", "st_chunked")
+UNDRAINED = ("st_204_ka", "st_304_ka", "st_chunked", "st_103_then_200")
 
 
 class Peer(object):
@@ -160,6 +161,13 @@ class Peer(object):
                 elif act == "st_chunked":
                     payload = b"sorry " + good
                     c.sendall(b"HTTP/1.1 503 Busy\r\nTransfer-Encoding: chunked\r\n\r\n" + b"%x\r\n" % len(payload) + payload + b"\r\n0\r\n\r\n")
+                elif act == "st_103_then_200":
+                    # an interim response other than 100, then the final reply on the same connection
+                    c.sendall(b"HTTP/1.1 103 Early Hints\r\nLink: </x>; rel=preload\r\n\r\n")
+                    send(b"200 OK", good)
+                elif act == "st_520_noreason":
+                    # unregistered status code, no reason phrase
+                    c.sendall(b"HTTP/1.1 520\r\nContent-Length: 0\r\n\r\n")
                 elif act == "trunc":
                     c.sendall(b"HTTP/1.1 200 OK\r\nContent-Length: %d\r\n\r\n" % (len(good) + 10) + good[:5])
                     return
@@ -329,7 +337,7 @@ def check_script(family, script):
     if records and records[-1]["outcome"] != "returned":
         fail("C19/no-recovery", "the last healthy call failed (script %r)" % (list(script),), {"records": summarize(records)})
     kinds = set(a for a in script if a not in HEALTHY)
-    kept_alive_fault = any(script[i] not in HEALTHY and script[i] != "refuse" and script[i - 1] in ("ok_ka", "st_cl", "empty200", "nonjson", "st_202_body", "st_204_ka", "st_304_ka", "st_chunked") for i in range(1, len(script)))
+    kept_alive_fault = any(script[i] not in HEALTHY and script[i] != "refuse" and script[i - 1] in ("ok_ka", "st_cl", "empty200", "nonjson", "st_202_body", "st_204_ka", "st_304_ka", "st_chunked", "st_103_then_200", "st_520_noreason") for i in range(1, len(script)))
     nt = len(kinds) >= 2 or kept_alive_fault
     classes = ["family:" + family, "len:%d" % len(script)] + sorted("fault:" + k for k in kinds)
     if kept_alive_fault:
